@@ -6,7 +6,7 @@ namespace Goml.GoComp
 open Goml Goml.Go Goml.GoCompile Goml.GoFrag
 open Goml.Sem (Val World Res Fail)
 open Goml.C01 (toG)
-open Goml.Dce (keys allDecls lookup_cons_self lookup_cons_ne lookup_none_of_not_key key_of_lookup_some
+open Goml.Dce (keys lookup_cons_self lookup_cons_ne lookup_none_of_not_key key_of_lookup_some
   keys_update lookup_update_ne lookup_update_self update_not_key)
 
 attribute [local irreducible] Goml.GoCompile.vn Goml.GoCompile.gid Goml.GoCompile.rn
@@ -94,12 +94,20 @@ theorem stepU {env : Env} {file : AFile} {G : List String} {P : Prog} {F : GFile
   generalize hst1 : (st.next.check (okTy g.ret)).check (g.params.all fun p => okTy p.2) = st1 at *
   generalize hS : (compileA env (.assign retName) st1 g.body).1 = S at *
   -- the locals of the compiled function
-  have hlocals : Goml.Dce.localsOf
+  have hlocals : ndLocals
       { name := fnName g.name, params := g.params.map fun p => (vn p.1, goTy p.2), ret := some (goTy g.ret),
         body := .varDecl (gid retName) (goTy g.ret) none :: (S ++ [.ret (some (.var (gid retName) (goTy g.ret)))]) } =
-      (g.params.map fun p => vn p.1) ++ (gid retName :: allDecls S) := by
-    simp [Goml.Dce.localsOf, allDecls_varDecl, allDecls_append, allDecls_ret, allDecls, Goml.Dce.declsOf, List.map_map, Function.comp_def]
-  rw [hlocals] at hnodup hblank hcallees
+      (g.params.map fun p => vn p.1) ++ (gid retName :: ndDecls S) := by
+    simp [ndLocals, ndDecls_varDecl, ndDecls_append, ndDecls_ret, ndDecls, ndDeclsOf, List.map_map, Function.comp_def]
+  have hsubL : ∀ y, y ∈ (g.params.map fun p => vn p.1) ++ (gid retName :: ndDecls S) → y ∈ Goml.Dce.localsOf
+      { name := fnName g.name, params := g.params.map fun p => (vn p.1, goTy p.2), ret := some (goTy g.ret),
+        body := .varDecl (gid retName) (goTy g.ret) none :: (S ++ [.ret (some (.var (gid retName) (goTy g.ret)))]) } := by
+    intro y hy
+    rw [← hlocals] at hy
+    simp only [ndLocals, List.mem_append] at hy
+    simp only [Goml.Dce.localsOf, List.mem_append]
+    exact hy.imp id (ndDecls_sub _ y)
+  rw [hlocals] at hnodup
   obtain ⟨hndP, hndR, hdisjPR⟩ := List.nodup_append.mp hnodup
   obtain ⟨hretS, hndS⟩ := List.nodup_cons.mp hndR
   -- environments
@@ -117,16 +125,15 @@ theorem stepU {env : Env} {file : AFile} {G : List String} {P : Prog} {F : GFile
     hrel0.go_agree (fun y ty hy => by
       obtain ⟨_, _, _, h2, _, _⟩ := hrel0.1 y ty hy
       exact lookup_cons_ne _ _ (fun e => hretP (e ▸ key_of_lookup_some h2)))
-  have hlocalsBad : ∀ y, y ∈ (g.params.map fun p => vn p.1) ++ (gid retName :: allDecls S) → ¬ y ∈ Bad := by
+  have hlocalsBad : ∀ y, y ∈ (g.params.map fun p => vn p.1) ++ (gid retName :: ndDecls S) → ¬ y ∈ Bad := by
     intro y hy hb
+    have hyL := hsubL y hy
     simp only [Bad, List.mem_cons, List.mem_map] at hb
     rcases hb with rfl | ⟨c, hc, rfl⟩
-    · have hnb : ¬ "_" ∈ (g.params.map fun p => vn p.1) ++ (gid retName :: allDecls S) := by
-        intro h; rw [List.contains_eq_mem] at hblank; simp [h] at hblank
-      exact hnb hy
+    · rw [List.contains_eq_mem] at hblank; simp [hyL] at hblank
     · have := List.all_eq_true.mp hcallees c hc
       simp only [Bool.and_eq_true, Bool.not_eq_true', List.contains_eq_mem, decide_eq_false_iff_not] at this
-      exact this.1 hy
+      exact this.1 hyL
   have hinv1 : GInv Bad S env1 := by
     refine ⟨hndS, fun y hy hk => ?_, fun y hy => hlocalsBad y (List.mem_append_right _ (List.mem_cons_of_mem _ hy)),
       fun y hk => ?_⟩
@@ -142,11 +149,12 @@ theorem stepU {env : Env} {file : AFile} {G : List String} {P : Prog} {F : GFile
     ⟨by simp [env1], fun y ty hy e => by
       obtain ⟨_, _, _, h2, _, _⟩ := hrel0.1 y ty hy
       exact hretP (e ▸ key_of_lookup_some h2)⟩
-  have hsim := ha (.assign retName) st1 g.body (paramCtx g) _ w env1 gw Bad hfrag hrel1 hw (hS ▸ hinv1) htgt1
+  have hsim := ha (.assign retName) st1 g.body (paramCtx g) [] _ w env1 gw Bad hfrag hrel1 (KRel.nil _) hw (hS ▸ hinv1) htgt1
     (by simp [Bad]) (fun c hc => by simp only [Bad, List.mem_cons, List.mem_map]; exact Or.inr ⟨c, hc, rfl⟩)
   rw [hS, hret'] at hsim
   have hvd : StmtS F (goBind g.params gvs) gw (.varDecl (gid retName) (goTy g.ret) none) (.ok (env1, .normal) gw) :=
     stmt_varDecl_none (flat_not_absurd (valTy_flat hrs))
+  have harity : (g.params.map fun p => (vn p.1, goTy p.2)).length = gvs.length := by simp [hlen.2]
   revert hsim
   cases hres : Sem.eval n P (Sem.bindParams (g.params.map (·.1)) vs []) w g.body.toExpr with
   | ok v w' =>
@@ -158,12 +166,12 @@ theorem stepU {env : Env} {file : AFile} {G : List String} {P : Prog} {F : GFile
         (.ret (some (.var (gid retName) (goTy g.ret)))) (.ok (D ++ (gid retName, gv) :: goBind g.params gvs, .ret gv) gw') :=
       stmt_ret (ev_var_some hlk)
     have hblock := block_cons hvd (block_append hb (block_cons_sig (rest := []) (by simp) hr))
-    exact ⟨gv, gw', call_func_env hfind rfl hblock rfl, h3, h4, h5⟩
+    exact ⟨gv, gw', call_func_env hfind rfl hblock rfl (by simp [hlen.2]), h3, h4, h5⟩
   | fail fl w' =>
     cases fl with
     | panic k =>
       rintro ⟨gw', hb, h5⟩
-      exact ⟨gw', call_func_env hfind rfl (block_cons hvd (block_append_panic hb)) rfl, h5⟩
+      exact ⟨gw', call_func_env hfind rfl (block_cons hvd (block_append_panic hb)) rfl (by simp [hlen.2]), h5⟩
     | fuel => intro _; trivial
     | stuck s => intro _; trivial
 
